@@ -76,6 +76,13 @@ def _extra_worker(job):
 
 
 def _child(conn, kind, job):
+    tl = os.environ.get('PYVC_TASKLOG')
+    if tl:     # debugging aid: which task does this process run
+        try:
+            os.makedirs(tl, exist_ok=True)
+            open(os.path.join(tl, str(os.getpid())), 'w').write(f'{kind} {job[0]} {job[1]}\n')
+        except OSError:
+            pass
     res = _worker(job) if kind == 'contract' else _extra_worker(job)
     try:
         conn.send(res)
